@@ -146,6 +146,11 @@ def run(ctx):
     src = ("param", "**mapping")
     ok = bool(w) and all(v[0] == "comp" and v[2] == ("kv", ("val", src, 0), ("key", src, 0)) for v in w)
     ctx.ob("C19.R2", fi, ok, "ksymapping is {value: name} of the same mapping that drives parsing", key="Enum ksymapping")
+    late = []
+    for p in paths:
+        firstw = min([i for i, e in enumerate(p.events) if e.kind == "SELFWRITE" and e["attr"] in ("ksymapping", "decmapping")], default=None)
+        late += [e for i, e in enumerate(p.events) if firstw is not None and i > firstw and e.kind in ("STORE", "MUT") and e["base"] == src]
+    ctx.ob("C19.R2", fi, not late, "ksymapping and decmapping are both taken after the last entry (merged enum classes included) went into the mapping", key="Enum ksymapping complete")
     fi, paths = own_method_paths(ctx, "Pointer", "_emitprimitivetype")
     st = [e for p in paths for e in p.events if e.kind == "STORE" and e["base"] == ("attr", ("param", "ksy"), "instances")]
     off = N.selfattr("offset")
@@ -175,7 +180,30 @@ def run(ctx):
     fi, paths = own_method_paths(ctx, "BitsInteger", "_emitprimitivetype")
     ok = all(p.retval == ("fmt", N.const("b%s"), ("tuple", (N.selfattr("length"),))) for p in paths if p.returns) and any(p.returns for p in paths)
     ctx.ob("C19.R2", fi, ok, "BitsInteger exports b{length}", key="BitsInteger type")
-    ctx.floor("C19.R2", 22)
+    ctx.floor("C19.R2", 23)
+
+    # ---------------------------------------------------------------- R5: shared tables are keyed by fresh names
+    fi, paths = own_method_paths(ctx, "KsyGen", "allocateId")
+    nid = N.mk_add(N.selfattr("nextid"), N.const(1))
+    ok = len(paths) == 1 and paths[0].retval == nid and any(e.kind == "SELFWRITE" and e["attr"] == "nextid" and e["value"] == nid for e in paths[0].events)
+    ctx.ob("C19.R5", fi, ok, "KsyGen.allocateId returns a counter it has just advanced (no two calls return the same id)", key="allocateId")
+    alloc = ("call", ("attr", ("param", "ksy"), "allocateId"), (), ())
+    nst = 0
+    for f in M.all_functions():
+        if "ksy" not in [a.arg for a in f.node.args.args]:
+            continue
+        ps = paths_of(ctx, f)
+        for st in uniq_events(ps, "STORE"):
+            b = st["base"]
+            if not (b[0] == "attr" and b[1] == ("param", "ksy")):
+                continue
+            nst += 1
+            k = st["key"]
+            ok = k[0] == "fmt" and N.is_const(k[1]) and N.contains(k, alloc)
+            ctx.ob("C19.R5", f, ok, "entries of the shared table ksy.%s are stored under a name built from a fresh ksy.allocateId() (an entry keyed any other way can overwrite an earlier one; got %s)" % (b[2], N.show(k)), key="ksy.%s key" % b[2])
+            rets = [p for p in ps if p.returns and any(e.kind == "STORE" and e.node is st.node for e in p.events)]
+            ctx.ob("C19.R5", f, bool(rets) and all(p.retval == k for p in rets), "the name returned is the name the entry was stored under", key="ksy.%s returned name" % b[2])
+    ctx.floor("C19.R5", 7)
 
     # ---------------------------------------------------------------- R3
     subs = N.selfattr("subcons")
